@@ -93,6 +93,7 @@ type Backend struct {
 	KeepBodies       bool
 	live             map[net.Conn]struct{}
 	AbortUploadAfter int64 // >0: read this many body bytes of a proxied request, then RST without answering
+	busy             int64 // scripted (non-health, non-listing) requests that are being answered right now
 }
 
 // ownPorts: every port this process has listened on (its backends, its stacks).  Several harness processes may run at
@@ -243,6 +244,9 @@ func (b *Backend) Count() int        { b.mu.Lock(); defer b.mu.Unlock(); return 
 func (b *Backend) HealthHits() int64 { return atomic.LoadInt64(&b.healthHits) }
 func (b *Backend) OpenConns() int64  { return atomic.LoadInt64(&b.open) }
 
+// Busy: scripted requests (not health probes, not model listings) this backend has received and not finished answering.
+func (b *Backend) Busy() int64 { return atomic.LoadInt64(&b.busy) }
+
 func (b *Backend) serve(ln net.Listener) {
 	for {
 		c, err := ln.Accept()
@@ -337,11 +341,14 @@ func (b *Backend) handle(c net.Conn) {
 		b.seen = append(b.seen, s)
 		f := b.script
 		b.mu.Unlock()
+		atomic.AddInt64(&b.busy, 1)
 		bh := f(n, s)
 		if bh.Gate != nil {
 			<-bh.Gate
 		}
-		if !b.respond(c, bh, s) {
+		again := b.respond(c, bh, s)
+		atomic.AddInt64(&b.busy, -1)
+		if !again {
 			return
 		}
 	}
